@@ -1,3 +1,4 @@
 import Omaha.Basic.Bytes
 import Omaha.Version
 import Omaha.Time
+import Omaha.Cup
